@@ -73,7 +73,22 @@ def thermal_case(chk, k, d, c, cls):
 
 def shape_case(chk, kind, a, b, r):
     from pyroll.core import Profile
-    if kind == 'round':
+    from shapely.geometry import Polygon
+    from shapely.affinity import translate, rotate
+    if kind in ('tee', 'ell', 'offbox', 'tri3'):
+        # arbitrary polygons: non-convex, off-centre (offset r in units of the size), 3-fold classified
+        if kind == 'tee':
+            poly = Polygon([(-1, -4), (1, -4), (1, 2), (4, 2), (4, 4), (-4, 4), (-4, 2), (-1, 2)])
+        elif kind == 'ell':
+            poly = Polygon([(0, 0), (4, 0), (4, 1), (1, 1), (1, 5), (0, 5)])
+        elif kind == 'offbox':
+            poly = Polygon([(-3, -5), (3, -5), (3, 5), (-3, 5)])
+        else:
+            poly = rotate(Polygon([(0, 2), (-1.7320508, -1), (1.7320508, -1)]), 0)
+        from shapely.affinity import scale
+        poly = translate(scale(poly, a, a * (b / a if kind != 'tri3' else 1), origin=(0, 0)), xoff=r * a * 7, yoff=-r * a * 9)
+        p = Profile.from_polygon(poly, {'3fold'} if kind == 'tri3' else {'generic'})
+    elif kind == 'round':
         p = Profile.round(radius=a)
     elif kind == 'square':
         p = Profile.square(side=a, corner_radius=r * a / 2)
@@ -91,25 +106,26 @@ def shape_case(chk, kind, a, b, r):
     if not (close(er.width, w) and close(er.height, h) and close(er.area, A)):
         chk.fail('equivalent_rectangle_shape', f"{kind}: rectangle {er.width}x{er.height} vs {w}x{h}", data)
         return False
-    # chords: bounded, zero outside, integrate to the area (exact for polygons on vertex abscissae)
-    xs = sorted(set(np.round(np.array(p.cross_section.exterior.coords)[:, 0], 13)))
-    hs = [p.local_height(x) for x in xs]
-    if any(v > p.height * (1 + 1e-9) + 1e-9 for v in hs):
-        chk.fail('local_height_bound', f"{kind}: a local height exceeds the height", data)
-        return False
-    integral = sum((xs[i + 1] - xs[i]) * (hs[i] + hs[i + 1]) / 2 for i in range(len(xs) - 1))
-    if not close(integral, A, 1e-6):
-        chk.fail('local_height_integral', f"{kind}: chords integrate to {integral}, area {A}", data)
-        return False
-    if p.local_height(p.width * 0.5 + 0.1 * a) > 1e-9 or p.local_width(p.height * 0.5 + 0.1 * a) > 1e-9:
-        chk.fail('local_outside', f"{kind}: non-zero chord outside the shape", data)
-        return False
-    ys = sorted(set(np.round(np.array(p.cross_section.exterior.coords)[:, 1], 13)))
-    ws = [p.local_width(y) for y in ys]
-    integral = sum((ys[i + 1] - ys[i]) * (ws[i] + ws[i + 1]) / 2 for i in range(len(ys) - 1))
-    if not close(integral, A, 1e-6) or any(v > p.width * (1 + 1e-9) + 1e-9 for v in ws):
-        chk.fail('local_width_integral', f"{kind}: width chords integrate to {integral}, area {A}", data)
-        return False
+    # chords: bounded by the extent, zero outside, integrate to the area.  The chord length is piecewise
+    # linear between vertex coordinates (with jumps exactly at vertices of non-convex shapes), so the midpoint
+    # rule on the intervals between consecutive vertex coordinates is exact.
+    minx, miny, maxx, maxy = p.cross_section.bounds
+    for axis, fn, lo, hi, ext in ((0, p.local_height, minx, maxx, maxy - miny), (1, p.local_width, miny, maxy, maxx - minx)):
+        cs_ = sorted(set(np.round(np.array(p.cross_section.exterior.coords)[:, axis], 13)))
+        mids = [(cs_[i] + cs_[i + 1]) / 2 for i in range(len(cs_) - 1)]
+        vals = [fn(m) for m in mids]
+        name = 'local_height' if axis == 0 else 'local_width'
+        if any(v > ext * (1 + 1e-9) + 1e-9 or v < 0 for v in vals):
+            chk.fail(name + '_bound', f"{kind}: a {name} is outside [0, extent]", data)
+            return False
+        integral = sum((cs_[i + 1] - cs_[i]) * vals[i] for i in range(len(mids)))
+        if not close(integral, A, 1e-6):
+            chk.fail(name + '_integral', f"{kind}: {name} integrates to {integral}, area is {A}", data)
+            return False
+        span = hi - lo
+        if fn(hi + 0.05 * span) > 1e-9 * span or fn(lo - 0.05 * span) > 1e-9 * span:
+            chk.fail(name + '_outside', f"{kind}: non-zero {name} outside the shape", data)
+            return False
     return True
 
 
@@ -155,9 +171,11 @@ def oracle(chk, n):
         seen.add(('t', round(k, 9), round(d, 9)))
         if not thermal_case(chk, k, d, c, 'Profile' if i % 2 else 'Roll'):
             break
-    for i in range(max(8, n // 20)):
-        kind = ['round', 'square', 'box', 'diamond'][i % 4]
+    for i in range(max(16, n // 20)):
+        kind = ['round', 'square', 'box', 'diamond', 'tee', 'ell', 'offbox', 'tri3'][i % 8]
         a, b, r = 10 ** rng.uniform(-3, 2), 10 ** rng.uniform(-3, 2), rng.choice([0, 0.1, 0.5, 0.9])
+        if kind in ('tee', 'ell', 'offbox', 'tri3'):
+            b = a * rng.uniform(0.5, 2)
         if kind in ('box', 'diamond'):
             b = a * rng.uniform(0.3, 3)
         ev += 1
